@@ -73,6 +73,24 @@ Theorem asynciolock_no_deadlock :
 Proof. exact asynciolock_no_deadlock_proof. Qed.
 Print Assumptions asynciolock_no_deadlock.
 
+(* The fairness asyncio.Lock has (weaker than FairLock's): tickets are arrival ranks; the tickets that acquired, in
+   acquisition order, followed by the tickets of the LIVE (not cancelled) queued waiters, are strictly increasing: no live
+   waiter is ever overtaken, a newcomer on the fast path can only pass waiters whose future is already cancelled (they
+   never take the lock); and every ticket handed out is exactly one of acquired / queued / gone with CancelledError. *)
+Theorem asynciolock_fifo_among_live :
+  forall (ls : list alabel) (s : al), al_run al_init ls = Some s ->
+    StronglySorted lt (al_acq s ++ map aw_ticket (filter live (al_waiters s))) /\
+    (forall k, count_occ Nat.eq_dec (al_acq s ++ map aw_ticket (al_waiters s) ++ al_gone s) k
+               = if k <? al_next s then 1 else 0).
+Proof. exact asynciolock_fifo_among_live_proof. Qed.
+Print Assumptions asynciolock_fifo_among_live.
+
+(* the overtaking it does allow: B queued, its future cancelled, A releases, newcomer C takes the lock before B has left *)
+Example asynciolock_overtakes_cancelled_only :
+  exists s, al_run al_init [ALAcquire 0; ALAcquire 1; ALFutCancel 1; ALRelease 0; ALAcquire 2] = Some s
+            /\ al_holders s = [2] /\ al_acq s = [0; 2] /\ map aw_ticket (al_waiters s) = [1].
+Proof. eexists. split; [vm_compute; reflexivity|]. repeat split. Qed.
+
 (* N senders, any programs, whatever the send lock (k = LFair: the FairLock of /repo; LAsyncio: CPython's asyncio.Lock,
    what AsyncTCPNetworkClient and the server-side client get on the asyncio backend; LNone: AsyncStreamEndpoint used directly), every label sequence (start / resume / transport suspension ends
    normally or with an error / cancellation of any task at any await):
